@@ -127,13 +127,44 @@ class Facts:
         self._at[b.id] = (le, ne)
         return le, ne
 
+def _alts(self, b, _stack=None):
+    """alternative fact sets holding on entry to b: at a join that is not a loop header the facts of each incoming path
+    are kept apart (an obligation must then be proved once per alternative).  Dominator-chain facts hold in all of them."""
+    key = ("alts", b.id)
+    if key in self._at: return self._at[key]
+    _stack = _stack or set()
+    base = self.at_block(b)
+    loops = self.fn.loops()
+    x = b; le = []; ne = []
+    while len(x.preds) == 1:
+        l, n = self.edge_facts(x.preds[0], x); le += l; ne += n; x = x.preds[0]
+    out = None
+    if len(x.preds) > 1 and x.id not in loops and x.id not in _stack and len(x.preds) <= 8 and len(_stack) < 12:
+        out = []; st2 = _stack | {x.id}
+        for p in x.preds:
+            l2, n2 = self.edge_facts(p, x)
+            for (l3, n3) in _alts(self, p, st2):
+                out.append((le + list(l2) + list(l3), ne + list(n2) + list(n3)))
+                if len(out) > 32: out = None; break
+            if out is None: break
+        if out is not None:
+            # dominator facts are already contained in every path's facts except where a path was cut: add them once
+            out = [(list(base[0]) + l, list(base[1]) + n) for (l, n) in out]
+    if out is None: out = [(list(base[0]) + le, list(base[1]) + ne)]
+    self._at[key] = out
+    return out
+
+
+Facts.alts = _alts
+
+
 class Prover:
     def __init__(self, fi, facts, assume=()):
         self.fi = fi; self.fn = fi.fn; self.facts = facts; self.assume = list(assume)
         self.log = []
     # atom knowledge -------------------------------------------------------
     def atom_inst(self, a):
-        if isinstance(a, tuple) and a[0] in ("v", "trunc", "and", "i", "ld", "mul") :
+        if isinstance(a, tuple) and a[0] in ("v", "trunc", "and", "i", "ld", "mul"):
             if a[0] == "v" and a[1] == "inst": return self.fn.imap.get(a[2])
             if a[0] in ("trunc", "and", "i", "ld", "mul"): return self.fn.imap.get(a[1])
         return None
@@ -160,8 +191,42 @@ class Prover:
         elif i.op == "urem" and i.ops[1]["k"] == "int":
             out.append(A - (int(i.ops[1]["v"]) - 1))
         return out
+    def prod_upper(self, a, facts):
+        """upper bounds of a product atom prod(x, y) from the current facts (all atoms are non-negative):
+           x <= N - c        =>  x*y <= N*y - c*y
+           x <= K (const)    =>  x*y <= K*y
+           N <= udiv(X, y)   =>  N*y <= X"""
+        out = []
+        if not (isinstance(a, tuple) and a[0] == "prod"): return out
+        A = Lin.atom(a)
+        from .core import prod_atom
+        for (x, y) in ((a[1], a[2]), (a[2], a[1])):
+            X, Y = Lin.atom(x), Lin.atom(y)
+            for f in facts:
+                if f.coeff(x) != 1: continue
+                rest = f - X                       # x + rest <= 0
+                if rest.is_const():
+                    out.append(A - Y.scale(-rest.c))
+                    continue
+                if len(rest.t) == 1:
+                    (n, k), = rest.t.items()
+                    if k == -1:
+                        # x <= n - c
+                        ni = self.atom_inst(n)
+                        pn = prod_atom(Lin.atom(n), Y)
+                        if pn is not None and rest.c >= 0: out.append(A - Lin.atom(pn) + Y.scale(rest.c))
+                        if ni is not None and ni.op == "udiv" and rest.c >= 0:
+                            d = self.fi.lin(ni.ops[1])
+                            if d == Y: out.append(A - self.fi.lin(ni.ops[0]))
+        return out
+    rewrite = None
     def split_values(self, a):
         """for phi/select atoms: list of (Lin value, extra facts) alternatives, else None"""
+        alts = self._split_values(a)
+        if alts is not None and self.rewrite is not None:
+            alts = [(self.rewrite(v), [self.rewrite(f) for f in ex]) for v, ex in alts]
+        return alts
+    def _split_values(self, a):
         if isinstance(a, tuple) and a[0] == "mphi":
             b = self.fn.bmap[a[1]]
             if b.id in self.fn.loops(): return None
@@ -192,6 +257,19 @@ class Prover:
                 alts.append((self.fi.lin(inc["v"]), list(le) + list(le2)))
             return alts
         return None
+    def derived(self, facts):
+        """N + k <= udiv(X, c)  =>  c*N + c*k <= X     (and the same for lshr by a constant)"""
+        out = []
+        for f in facts:
+            for a, co in f.t.items():
+                if co != -1: continue
+                i = self.atom_inst(a)
+                if i is None or i.op not in ("udiv", "lshr") or i.ops[1]["k"] != "int": continue
+                c = int(i.ops[1]["v"]) if i.op == "udiv" else (1 << int(i.ops[1]["v"]))
+                if c <= 0: continue
+                rest = f + Lin.atom(a)                     # rest <= a = X / c
+                out.append(rest.scale(c) - self.fi.lin(i.ops[0]))
+        return out
     def infeasible(self, facts, ne=()):
         """the single-atom facts (and atoms >= 0) admit no value for some atom: the program point is unreachable"""
         lo = {}; hi = {}
@@ -204,16 +282,41 @@ class Prover:
         for a in set(lo) | set(hi):
             if lo.get(a, 0) > hi.get(a, float("inf")): return True
         return False
+    def prove_at(self, e, block, extra_le=(), extra_ne=(), trim=None, rewrite=None):
+        """prove e <= 0 at the entry of `block`, once per alternative incoming fact set"""
+        self.rewrite = rewrite
+        for (le, ne) in self.facts.alts(block):
+            if rewrite is not None: le = [rewrite(f) for f in le]; ne = [rewrite(f) for f in ne]
+            fs = list(le) + list(extra_le); ns = list(ne) + list(extra_ne)
+            fs = fs + self.derived(fs)
+            if trim is not None: fs = trim(fs, ns)
+            if self.infeasible(fs): continue
+            if not self.prove_le0(e, fs): return False
+        return True
     # proving ---------------------------------------------------------------
     def prove_le0(self, e, facts, depth=0, seen=None):
         """prove e <= 0 assuming every f in facts is <= 0 and all atoms >= 0"""
+        if depth == 0:
+            self._fail = {}; self._fid = {}
+            # de-duplicate the facts once
+            uniq = {}; 
+            for f in facts: uniq.setdefault(f.key(), f)
+            facts = list(uniq.values())
         seen = seen if seen is not None else set()
         k = e.key()
         if k in seen: return False
-        seen = seen | {k}
         pos = [a for a, c in e.t.items() if c > 0]
         if not pos and e.c <= 0: return True
         if depth > 7: return False
+        fk = self._fid.setdefault(tuple(sorted(id(f) for f in facts)) if len(facts) < 64 else len(facts), len(self._fid))
+        mk = (k, fk)
+        if mk in self._fail and self._fail[mk] <= depth: return False
+        seen = seen | {k}
+        r = self._prove(e, facts, depth, seen)
+        if not r: self._fail[mk] = min(depth, self._fail.get(mk, 99))
+        return r
+
+    def _prove(self, e, facts, depth, seen):
         for a in sorted(e.t, key=lambda x: (e.t[x] < 0, repr(x))):     # positive atoms first
             c = e.t[a]
             if c > 0:
@@ -224,7 +327,7 @@ class Prover:
                         if self.infeasible(facts + extra): continue
                         if not self.prove_le0(e.subst(a, val), facts + extra, depth + 1, seen): ok = False; break
                     if ok: return True
-                cands = list(facts) + self.intrinsic_upper(a)
+                cands = list(facts) + self.intrinsic_upper(a) + self.prod_upper(a, facts)
             else:
                 cands = list(facts)
             for f in cands:
